@@ -221,6 +221,13 @@ Definition draws_fit (mode : gmode) (i : op_in) : bool :=
   && draw_fits mode LCookie (i_cookie i) && draw_fits mode LQuery (i_query i)
   && body_draw_fits mode (i_body i).
 
+(* the drawn dict re-uses a name of the explicit dict (copied.update(new) overwrites the caller value) *)
+Definition draw_overwrites_explicit (l : loc_in) : bool :=
+  match l_explicit l, l_draw l with
+  | EDict e, DDict d => existsb (fun kv => existsb (str_eqb (fst kv)) (map fst e)) d
+  | _, _ => false
+  end.
+
 Definition has_params (l : loc_in) : bool := match l_params l with [] => false | _ => true end.
 Definition all_have_params (i : op_in) : bool :=
   has_params (i_path i) && has_params (i_header i) && has_params (i_cookie i) && has_params (i_query i).
@@ -504,6 +511,18 @@ Definition remove_required_property (m : mschema) (ch : rchoice) : option mschem
     | Some name => Some {| kept := set_type TObj (drop_required name (kept m)); negated := negated m |}
     end
   end.
+
+(* ---- exclusion of explicitly supplied names from the location schema (_hypothesis.py:349-354):
+        schema[properties].pop(name, None); suppress(ValueError): schema[required].remove(name) ---- *)
+Definition exclude_one (name : str) (kws : list kw) : list kw :=
+  map (fun k => match k with
+                | KProps ps => KProps (assoc_remove name ps)
+                | KRequired ns => KRequired (remove_first name ns)
+                | _ => k
+                end) kws.
+Definition exclude_names (names : list str) (kws : list kw) : list kw :=
+  fold_left (fun acc n => exclude_one n acc) names kws.
+Definition smem (n : str) (l : list str) : bool := existsb (str_eqb n) l.
 
 (* ---- region predicates of the soundness theorems ---- *)
 Definition is_ap_false (k : kw) : bool := match k with KAddProps false => true | _ => false end.
